@@ -7,8 +7,8 @@ import (
 	"fmt"
 
 	"github.com/jrhy/mast"
-	"github.com/jrhy/mast/verifrt"
 	masts3 "github.com/jrhy/mast/persist/s3"
+	"github.com/jrhy/mast/verifrt"
 	"verifharness/explore"
 	"verifharness/report"
 	"verifharness/sched"
